@@ -78,29 +78,44 @@ cleaner_t = [R("full-rel", "cleaner", 2, 3, depth=11, max_seconds=MID, action_me
 auto_q = [R("full-dbg", "auto", 3, 3, depth=10)]
 auto_t = [R("full-rel", "auto", 3, 3, depth=14, max_seconds=MID), R("full-dbg", "auto", 3, 3, depth=12), R("full-rel", "autofin", 3, 3, depth=11, max_seconds=MID)]
 
+def seeded(depth, cfg="full-dbg", **kw):
+    """Graph-seeded exploration: every heap shape of family g3 (3 objects, c0 of each, c1 of #1, untraced cell of #0,
+    weak cell of #2, scripted finalizer of #2 / destructor of #0, at most one handle kept) is an initial state."""
+    a = dict(w=1, seed_family="g3", fresh=0)
+    a.update(kw)
+    return R(cfg, "dyn", 3, 4, depth=depth, **a)
+
+
+seed_q = [seeded(2), seeded(1, cfg="nofin-rel")]
+seed_t = [seeded(4, cfg="full-rel", max_seconds=BIG), seeded(3), seeded(3, cfg="nofin-rel"), seeded(3, cfg="full-rel", fin_menu="0,1,13", drop_menu="0,1,2", max_seconds=MID),
+          seeded(2, cfg="full-rel", c=1, action_menu="1,3,4", max_seconds=MID)]
+
 # ---- C01 no premature reclamation ---------------------------------------------------------------------------
-plan("C01", Q, core_q + [fin_q(FIN_RESURRECT), R("full-dbg", "weakfin", 2, 3, depth=10)] + auto_q + cleaner_q)
-plan("C01", T, core_t + [fin_t(FIN_RESURRECT), fin_t(FIN_ALL, depth=11), fin_t(FIN_RESURRECT, depth=11, n=3)] + weak_t + auto_t + cleaner_t)
+plan("C01", Q, core_q + seed_q + [fin_q(FIN_RESURRECT), R("full-dbg", "weakfin", 2, 3, depth=10)] + auto_q + cleaner_q)
+plan("C01", T, core_t + seed_t + [fin_t(FIN_RESURRECT), fin_t(FIN_ALL, depth=11), fin_t(FIN_RESURRECT, depth=11, n=3)] + weak_t + auto_t + cleaner_t)
 
 # ---- C02 completeness -----------------------------------------------------------------------------------------
-plan("C02", Q, core_q + [fin_q(FIN_RELEASE), R("nofin-rel", "dtor", 2, 3, depth=13), R("full-dbg", "weak", 2, 3, depth=12)])
-plan("C02", T, core_t + [fin_t(FIN_RELEASE), fin_t(FIN_ALL, depth=11), R("nofin-rel", "dtor", 2, 3, depth=18, max_seconds=MID)] + weak_t[1:5] + cleaner_t)
+plan("C02", Q, core_q + seed_q + [fin_q(FIN_RELEASE), R("nofin-rel", "dtor", 2, 3, depth=13), R("full-dbg", "weak", 2, 3, depth=12), R("full-dbg", "weakfin", 2, 3, depth=10)])
+plan("C02", T, core_t + seed_t + [fin_t(FIN_RELEASE), fin_t(FIN_ALL, depth=11), R("nofin-rel", "dtor", 2, 3, depth=18, max_seconds=MID)] + weak_t[1:5] + cleaner_t)
 
 # ---- C03 drop once / free once / right layout (+ layout grid engine) ---------------------------------------------
-plan("C03", Q, [R("full-dbg", "core", 2, 3), R("min-dbg", "core", 2, 3), fin_q(FIN_RELEASE, depth=12)] + weak_q + cyclic_q)
+plan("C03", Q, [R("full-dbg", "core", 2, 3), R("min-dbg", "core", 2, 3), fin_q(FIN_RELEASE, depth=12)] + seed_q[:1] + weak_q + cyclic_q)
 plan("C03", T, [R(c, "core", 2, 3) for c in ["full-dbg", "full-rel", "nofin-rel", "min-dbg", "min-rel", "pedantic-dbg"]] + [R("full-rel", "core", 3, 3, depth=14, max_seconds=MID), fin_t(FIN_RELEASE)] + weak_t + cyclic_t + cleaner_t)
 
 # ---- C04 Rc equivalence ---------------------------------------------------------------------------------------
-plan("C04", Q, core_q + [fin_q(FIN_RELEASE), R("full-dbg", "weak", 2, 3, depth=12)])
-plan("C04", T, core_t + [fin_t(FIN_RELEASE), fin_t(FIN_ALL, depth=11)] + weak_t[1:5] + cleaner_t)
+plan("C04", Q, core_q + seed_q[:1] + [fin_q(FIN_RELEASE), R("full-dbg", "weak", 2, 3, depth=12), R("full-dbg", "sat", 1, 2, depth=5, sat_k=1)])
+plan("C04", T, core_t + seed_t[:2] + [fin_t(FIN_RELEASE), fin_t(FIN_ALL, depth=11), R("full-rel", "sat", 2, 2, depth=7, sat_k=2, max_seconds=MID)] + weak_t[1:5] + cleaner_t)
 
 # ---- C05 finalizers ---------------------------------------------------------------------------------------------
 plan("C05", Q, [
     fin_q(FIN_RESURRECT), fin_q(FIN_RELEASE), fin_q(FIN_ALLOC, depth=10, n=3), fin_q(FIN_PHASE, depth=12),
     fin_q(FIN_ALL, depth=8, cfg="full-rel"), fin_q(FIN_ALL, depth=8, cfg="nofin-rel"),
-    R("full-dbg", "weakfin", 2, 3, depth=10), R("full-dbg", "core", 2, 3),
-])
-plan("C05", T, [
+    R("full-dbg", "weakfin", 2, 3, depth=10), R("full-dbg", "weakfin", 2, 3, depth=9, fin_menu="0,1,6", drop_menu="0"), R("full-dbg", "core", 2, 3),
+    R("full-dbg", "fin", 2, 3, depth=9, faults=1, fault_kinds=2, fin_menu=FIN_MIX),
+] + seed_q[:1])
+plan("C05", T, seed_t[:2] + [
+    R("full-rel", "weakfin", 2, 3, depth=12, fin_menu="0,1,6", drop_menu="0", max_seconds=MID),
+    R("full-rel", "fin", 2, 3, depth=12, faults=1, fault_kinds=2, fin_menu=FIN_MIX, max_seconds=MID),
     fin_t(FIN_RESURRECT), fin_t(FIN_RELEASE), fin_t(FIN_ALLOC, depth=13, n=3), fin_t(FIN_PHASE), fin_t(FIN_ALL, depth=11),
     fin_t(FIN_ALL, depth=10, cfg="nofin-rel"), R("full-dbg", "fin", 2, 2, fin_menu=FIN_RESURRECT), R("full-dbg", "fin", 2, 2, fin_menu=FIN_RELEASE),
     R("full-rel", "weakfin", 2, 3, depth=13, max_seconds=MID), R("full-rel", "dtor", 2, 3, depth=18, max_seconds=MID),
@@ -109,15 +124,17 @@ plan("C05", T, [
 # ---- C06 resurrection (+ deep-chain engine) --------------------------------------------------------------------------
 plan("C06", Q, [
     fin_q(FIN_RESURRECT, depth=14), fin_q(FIN_ALL, depth=8, cfg="full-rel"),
-    R("full-dbg", "weakfin", 2, 3, depth=10, fin_menu="0,6", drop_menu="0"),
+    R("full-dbg", "weakfin", 2, 3, depth=10, fin_menu="0,6,13", drop_menu="0"),
+    R("full-dbg", "weakfin", 2, 3, depth=9, fin_menu="0,1,6", drop_menu="0"),
     R("full-dbg", "fin", 3, 3, depth=10, fin_menu="0,1,3,7,8"),
-])
+] + seed_q[:1])
 plan("C06", T, [
     fin_t(FIN_RESURRECT, depth=19), R("full-dbg", "fin", 2, 2, fin_menu=FIN_RESURRECT), fin_t(FIN_ALL, depth=11),
     R("full-rel", "fin", 3, 3, depth=13, fin_menu="0,1,3,7,8", max_seconds=MID),
-    R("full-rel", "weakfin", 2, 3, depth=14, fin_menu="0,6", drop_menu="0", max_seconds=MID),
+    R("full-rel", "weakfin", 2, 3, depth=14, fin_menu="0,6,13", drop_menu="0", max_seconds=MID),
+    R("full-rel", "weakfin", 2, 3, depth=12, fin_menu="0,1,6", drop_menu="0", max_seconds=MID),
     R("full-rel", "weakfin", 3, 3, depth=11, fin_menu="0,6", drop_menu="0", max_seconds=MID),
-])
+] + seed_t[:2] + [seeded(3, cfg="full-rel", fin_menu="0,1,6,13", drop_menu="0", max_seconds=MID)])
 
 # ---- C07 callback panics contained at every crash point (fault forking) ---------------------------------------------
 plan("C07", Q, [
@@ -128,6 +145,7 @@ plan("C07", Q, [
     R("full-dbg", "cleaner", 2, 3, depth=7, faults=1),
     R("full-dbg", "cyclic", 3, 3, depth=6, faults=1),
     R("nofin-rel", "core", 2, 3, depth=14, faults=1),
+    seeded(1, faults=1),
 ])
 plan("C07", T, [
     R("full-dbg", "core", 2, 3, faults=1),
@@ -144,11 +162,12 @@ plan("C07", T, [
     R("full-rel", "cyclic", 3, 3, depth=8, faults=1, max_seconds=MID),
     R("full-rel", "autofin", 3, 3, depth=9, faults=1, max_seconds=MID),
     R("full-dbg", "fin", 2, 3, depth=10, faults=1, fin_menu=FIN_ALL),
+    seeded(2, cfg="full-rel", faults=1, max_seconds=BIG), seeded(1, cfg="nofin-rel", faults=1),
 ])
 
 # ---- C08 Weak::upgrade ----------------------------------------------------------------------------------------------
-plan("C08", Q, weak_q + [R("full-dbg", "cleaner", 2, 3, depth=8, action_menu=ACT_WEAK), R("full-rel", "weakfin", 3, 3, depth=8)] + cyclic_q)
-plan("C08", T, weak_t + [R("full-rel", "cleaner", 2, 3, depth=11, action_menu=ACT_WEAK, max_seconds=MID)] + cyclic_t)
+plan("C08", Q, seed_q + weak_q + [R("full-dbg", "cleaner", 2, 3, depth=8, action_menu=ACT_WEAK), R("full-rel", "weakfin", 3, 3, depth=8)] + cyclic_q)
+plan("C08", T, seed_t + weak_t + [R("full-rel", "cleaner", 2, 3, depth=11, action_menu=ACT_WEAK, max_seconds=MID)] + cyclic_t)
 
 # ---- C09 counts and side record --------------------------------------------------------------------------------------
 plan("C09", Q, [R("full-dbg", "weak", 1, 2, w=3)] + weak_q + cyclic_q)
@@ -169,8 +188,8 @@ plan("C10", T, [
 ])
 
 # ---- C11 introspection counters ----------------------------------------------------------------------------------------
-plan("C11", Q, core_q + auto_q + [fin_q(FIN_RELEASE, depth=12), R("full-dbg", "weak", 2, 3, depth=12)])
-plan("C11", T, core_t + auto_t + [fin_t(FIN_RELEASE)] + weak_t[1:5] + cleaner_t)
+plan("C11", Q, core_q + auto_q + cyclic_q + seed_q[:1] + [fin_q(FIN_RELEASE, depth=12), R("full-dbg", "weak", 2, 3, depth=12)])
+plan("C11", T, core_t + auto_t + cyclic_t + seed_t[:2] + [fin_t(FIN_RELEASE)] + weak_t[1:5] + cleaner_t)
 
 # ---- C12 phases, no nesting ----------------------------------------------------------------------------------------------
 plan("C12", Q, [
